@@ -184,6 +184,7 @@ class Func:
         while transparent and p is not None and (
                 p['k'] in WRAPPERS or p['k'] in EXPLICIT_CASTS or
                 (p['k'] == 'MemberExpr' and 'mfid' in p) or
+                (p['k'] == 'InitListExpr' and len(p.get('ch', [])) == 1) or
                 (p['k'] == 'CXXConstructExpr' and len(p.get('args', [])) == 1 and
                  _same_class_copy(p, self.node(p['args'][0])))):
             p = par.get(id(p))
@@ -461,9 +462,13 @@ def term_str(t):
         return term_str(t[2])
     if tag == '?:':
         return '(%s ? %s : %s)' % (term_str(t[1]), term_str(t[2]), term_str(t[3]))
+    if tag == 'trait':
+        return '%s(%s)' % (t[1], t[2])
+    if tag == 'idx':
+        return '%s[%s]' % (term_str(t[1]), term_str(t[2]))
     if tag in ('ctor',):
         return '%s{%s}' % (t[1].split('::')[-1], ', '.join(term_str(a) for a in t[2]))
-    return '<%s>' % (t[1] if len(t) > 1 else tag)
+    return '<%s>' % (str(t[1]) if len(t) > 1 else tag,)
 
 
 def short_loc(n):
